@@ -40,6 +40,17 @@ impl Dfa {
         Ok(Dfa { dfa, start, pattern: pattern.to_string() })
     }
 
+    /// Automaton of `Regex::is_match` for an arbitrary pattern text: an unanchored search, i.e.
+    /// "the pattern matches somewhere in the text". For a properly anchored pattern `^X$` this is
+    /// the same language as `X`; for a pattern that lost an anchor (or gained the `m` flag) it is
+    /// what the implementation really answers.
+    pub fn new_search(pattern: &str) -> Result<Dfa, String> {
+        let wrapped = format!("(?s:.*)(?:{})(?s:.*)", pattern);
+        let mut d = Dfa::new(&wrapped)?;
+        d.pattern = pattern.to_string();
+        Ok(d)
+    }
+
     #[inline]
     pub fn start(&self) -> StateID {
         self.start
@@ -350,5 +361,11 @@ mod tests {
         assert!(!d2.accepts(""));
         let d3 = Dfa::new("^(?i)k$").unwrap();
         assert!(d3.accepts("\u{212A}"));
+        let s1 = Dfa::new_search("(?s)^a.*$").unwrap();
+        assert!(s1.accepts("a") && s1.accepts("a\nb") && !s1.accepts("ba") && !s1.accepts(""));
+        let s2 = Dfa::new_search("(?ms)^a$").unwrap();
+        assert!(s2.accepts("a") && s2.accepts("x\na") && s2.accepts("a\nx") && !s2.accepts("xa"));
+        let s3 = Dfa::new_search("(?s)a$").unwrap();
+        assert!(s3.accepts("xa") && !s3.accepts("ax"));
     }
 }
